@@ -64,3 +64,10 @@ func (h *Heap) KnownElems(sv SliceV) map[int64]Lin {
 
 // EntailsEq reports h |- l == 0.
 func (h *Heap) EntailsEq(l Lin) bool { return h.entails(l) && h.entails(l.Neg()) }
+
+// SetKnown records that element idx of slice sv holds value v (precondition of a root execution).
+func (h *Heap) SetKnown(sv SliceV, idx int64, v Lin) {
+	if base, ok := sv.Off.ConstVal(); ok && sv.Reg != nil {
+		h.setKnown(sv.Reg, base+idx, v)
+	}
+}
